@@ -1027,7 +1027,7 @@ impl Suite for ListenSuite {
             let mut first = serde_json::to_vec(&v).unwrap();
             first.push(0);
             first.extend_from_slice(b"bra");
-            let chunks: Vec<Vec<u8>> = vec![first, b"vo\nsecond li".to_vec(), b"ne\nthi".to_vec(), b"rd\nunfinished".to_vec()];
+            let chunks: Vec<Vec<u8>> = vec![first, b"vo".to_vec(), b"\nsecond li".to_vec(), b"ne\nthi".to_vec(), b"rd".to_vec(), b"\r\n\nfourth\n".to_vec(), b"\nunfinished".to_vec()];
             let total: Vec<u8> = chunks.concat();
             let mut cl = vec![sx::atom("clients")];
             cl.push(client_sx("slow", 0, &chunks, &total));
